@@ -1,6 +1,86 @@
 import EupsModel.Drv.Util
+import EupsModel.Model.Cond
+import EupsModel.Model.CondPinned
+import EupsModel.Model.TableParse
 namespace EupsModel.Drv.C11
-open Lean EupsModel EupsModel.Drv
-/-- placeholder until the C11 model exists -/
-def handle : Handler := fun _ => throw "model C11 not built"
+open Lean EupsModel EupsModel.Drv EupsModel.Cond EupsModel.TableParse
+
+def errName : Err → String
+  | .runtime => "RuntimeError"
+  | .attribute => "AttributeError"
+  | .typeErr => "TypeError"
+  | .badTable => "BadTableContent"
+  | .unmodelled => "unmodelled"
+
+def resBool : Res Bool → Json
+  | .ok b => Json.mkObj [("out", "ok"), ("value", b)]
+  | .err e => Json.mkObj [("out", "err"), ("err", errName e)]
+  | .fuel => Json.mkObj [("out", "fuel")]
+
+def envOf (j : Json) : Except String Cond.Env := do
+  pure { flavor := ← jstr j "flavor", types := ← jstrs j "types" }
+
+def errJson (e : Err) : Json := Json.mkObj [("out", "err"), ("err", errName e)]
+
+def extraJson : Extra → Json
+  | .none => Json.mkObj []
+  | .optional b => Json.mkObj [("optional", b)]
+  | .append b => Json.mkObj [("append", b)]
+
+def actionJson (a : Action) : Json :=
+  Json.mkObj [("cmd", ofStr a.cmd), ("args", ofStrs a.args), ("extra", extraJson a.extra)]
+
+def variantOf (j : Json) : Except String Variant :=
+  match j.getObjVal? "variant" with
+  | .error _ => pure repaired
+  | .ok v => do
+    let flag (k : String) : Except String Bool := do (← v.getObjVal? k).getBool?
+    pure { d3 := ← flag "d3", d4 := ← flag "d4", d20 := ← flag "d20", d31 := ← flag "d31", d32 := ← flag "d32",
+           d33 := ← flag "d33" }
+
+def itemJson : Item → Json
+  | .cond c => Json.mkObj [("cond", ofStr c)]
+  | .blk as => Json.mkObj [("blk", Json.arr (as.map actionJson).toArray)]
+
+/-- `{"m":"c11","op":"table","text":…,"flavor":…,"types":[…],"pdir":null|…[,"variant":{"d3","d4","d20","d31","d32","d33"}]}` →
+the action list of `Table(file, topProduct).actions(flavor, setupType)`;
+`"op":"parse"` → the chains of `_actions`; `"op":"rewrite"` → the lines `_rewrite` returns;
+`"op":"args"` → the argument tokeniser on one argument text.
+`{"m":"c11","op":"cond","text":…,"flavor":…,"types":[…]}` → truth value of the condition text;
+`"op":"cond_pinned"` runs the evaluator as pinned (development aid for the witnesses);
+`"op":"tokens"` → the token list. -/
+def handle : Handler := fun j => do
+  let op ← (← j.getObjVal? "op").getStr?
+  match op with
+  | "cond" =>
+    let text ← jstr j "text"
+    pure (resBool (evalCond (← envOf j) (fuelFor text) text))
+  | "cond_pinned" =>
+    let text ← jstr j "text"
+    pure (resBool (CondPinned.evalCond (← envOf j) (fuelFor text) text))
+  | "table" =>
+    let v ← variantOf j
+    match tableActions v (← jstrOpt j "pdir") (← envOf j) (← jstr j "text") with
+    | .ok as => pure (Json.mkObj [("out", "ok"), ("actions", Json.arr (as.map actionJson).toArray)])
+    | .err e => pure (errJson e)
+    | .fuel => pure (Json.mkObj [("out", "fuel")])
+  | "parse" =>
+    let v ← variantOf j
+    match parse v (← jstrOpt j "pdir") (← jstr j "text") with
+    | .ok chains => pure (Json.mkObj [("out", "ok"), ("chains", Json.arr (chains.map fun c => Json.arr (c.map itemJson).toArray).toArray)])
+    | .err e => pure (errJson e)
+    | .fuel => pure (Json.mkObj [("out", "fuel")])
+  | "rewrite" =>
+    match rewrite (← jstr j "text") with
+    | .ok ls => pure (Json.mkObj [("out", "ok"), ("lines", ofStrs ls)])
+    | .err e => pure (errJson e)
+    | .fuel => pure (Json.mkObj [("out", "fuel")])
+  | "args" =>
+    pure (Json.mkObj [("out", "ok"), ("args", ofStrs (parseArgs (← variantOf j) (← jstr j "text")))])
+  | "tokens" =>
+    match tokenize (← jstr j "text") with
+    | none => pure (Json.mkObj [("out", "unmodelled")])
+    | some ts => pure (Json.mkObj [("out", "ok"), ("tokens", ofStrs ts)])
+  | _ => throw s!"unknown op {op}"
+
 end EupsModel.Drv.C11
